@@ -38,6 +38,14 @@ TABLE={ # id: (property, demo file, package dir, -run pattern, needs)
  "C14-b":("C14","zz_seed_demo_test.go","internal/wire","TestSeedDemo","a frame with zero payload length (verack, getaddr, sendheaders, mempool) and a wrong checksum"),
  "C17-b":("C17","zz_seed_demo_test.go","database","TestSeedDemo","an exported store that holds at least one ORPHAN header"),
  "C19-b":("C19","zz_seed_demo_test.go","domains","TestSeedDemo","difficulty bits whose target is 2^k-1 (exponent <= 3, mantissa 1,3,7,...,0x7fffff)"),
+ "C06-b":("C06","zz_seed_demo_test.go","transports/p2p/p2psync","TestSeedDemo","the node is current and a new block is announced by inv only by a peer that is not the sync peer"),
+ "C15-b":("C15","zz_seed_demo_test.go","service","TestSeedDemo","two concurrent Add calls with two different children of the current tip (lock taken on the fork path only)"),
+ "C18-b":("C18","zz_seed_demo_test.go","transports/p2p","TestSeedDemo","the done event of a peer that was refused (never admitted) from a host that has admitted peers"),
+ "C01-c":("C01","zz_seed_demo_test.go","service","TestSeedDemo","a competing header whose cumulative work exactly equals the tip's"),
+ "C05-c":("C05","zz_seed_demo_test.go","service","TestSeedDemo","a kill or failed write at one of the two state updates of a reorganising Add, then restart and redelivery"),
+ "C16-c":("C16","zz_seed_demo_test.go","transports/http/endpoints/api/headers","TestSeedDemo","ancestors route with a stored {hash} and an unknown {ancestorHash}"),
+ "C12-c":("C12","zz_seed_demo_test.go","notification","TestSeedDemo","two deactivated webhooks in consecutive rows, then another event"),
+ "C02-c":("C02","zz_seed_demo_test.go","database","TestSeedDemo","one verify request containing the same merkle root twice with different heights"),
 }
 ENV=dict(os.environ,GOFLAGS="-mod=mod",GOPROXY="off")
 def run(cmd,cwd,timeout=1500):
